@@ -153,6 +153,20 @@ Proof.
   exact (proj1 (step_own_thread clk n _ _ e V M Hm Hk)).
 Qed.
 
+(* the hypotheses of per_thread_frame hold for a concrete script: thread 2 calls twice between
+   the calls of thread 1, all on 10-counter files *)
+Example per_thread_frame_nonvacuous :
+  let k := k_stat {| ks_total := [bs "105"; bs "0"; bs "50"; bs "1015"; bs "10"; bs "0"; bs "3"; bs "0"; bs "7"; bs "0"];
+                     ks_cpus := []; ks_tail := [] |} in
+  let ev t f := {| e_tid := t; e_fn := f; e_percpu := false; e_iv := INone; e_k1 := k; e_k2 := k |} in
+  memo_ok 10 sys_init
+  /\ (forall o, In o [ev 2%Z FPercent; ev 2%Z FTimesPercent] -> e_tid o <> e_tid (ev 1%Z FPercent) /\ nf_of (e_k1 o) = 10%nat)
+  /\ nf_of (e_k1 (ev 1%Z FPercent)) = 10%nat.
+Proof.
+  cbv zeta. split; [now left|]. split; [|vm_compute; reflexivity].
+  intros o [<-|[<-|[]]]; split; try (vm_compute; reflexivity); cbn; lia.
+Qed.
+
 (* negative interval: ValueError and nothing changes *)
 Theorem step_negative clk st e : e_iv e = INeg -> step clk st e = (st, Exc ValueError).
 Proof.
